@@ -67,39 +67,39 @@ theorem std64 {n : Nat} (h : Isa.stdSize n = true) : n ≤ 64 := by
 section isa
 variable {a : Arch} {plen : Nat} {body : Bits} {vm : VmState}
 
-theorem isa_nop : Isa.exec a plen "nop" body vm = some { vm with pc := vm.pc + 1 } := by simp [Isa.exec]
+theorem isa_nop : Isa.exec a plen "nop" body vm = some { vm with pc := vm.pc + 1 } := by simp [Isa.exec, Isa.pipeOps]
 
 theorem isa_rset (h64 : a.rsize ≤ 64) :
     Isa.exec a plen "rset" body vm =
       some { vm with pc := vm.pc + 1, regs := vm.regs.set (Isa.field body 0 a.r) (Isa.field body a.r a.rsize) } := by
-  simp [Isa.exec, h64]
+  simp [Isa.exec, Isa.pipeOps, h64]
 
 theorem isa_unop {op : String} (hop : op = "inc" ∨ op = "dec" ∨ op = "clr") {x v : Nat}
     (hx : vm.regs[Isa.field body 0 a.r]? = some x) (hv : Isa.unop op a.rsize x = some v) :
     Isa.exec a plen op body vm = some { vm with pc := vm.pc + 1, regs := vm.regs.set (Isa.field body 0 a.r) v } := by
-  rcases hop with rfl | rfl | rfl <;> simp [Isa.exec, hx, hv]
+  rcases hop with rfl | rfl | rfl <;> simp [Isa.exec, Isa.pipeOps, hx, hv]
 
 theorem isa_binop {op : String} (hop : op = "add" ∨ op = "cpy") {d s v : Nat}
     (hd : vm.regs[Isa.field body 0 a.r]? = some d) (hs : vm.regs[Isa.field body a.r a.r]? = some s)
     (hv : Isa.binop op a.rsize d s = some v) :
     Isa.exec a plen op body vm = some { vm with pc := vm.pc + 1, regs := vm.regs.set (Isa.field body 0 a.r) v } := by
-  rcases hop with rfl | rfl <;> simp [Isa.exec, hd, hs, hv]
+  rcases hop with rfl | rfl <;> simp [Isa.exec, Isa.pipeOps, hd, hs, hv]
 
 theorem isa_j (hv : Isa.field body 0 a.o < plen) :
-    Isa.exec a plen "j" body vm = some { vm with pc := Isa.field body 0 a.o } := by simp [Isa.exec, hv]
+    Isa.exec a plen "j" body vm = some { vm with pc := Isa.field body 0 a.o } := by simp [Isa.exec, Isa.pipeOps, hv]
 
 theorem isa_jz {x : Nat} (hx : vm.regs[Isa.field body 0 a.r]? = some x) (hstd : Isa.stdSize a.rsize = true) :
     Isa.exec a plen "jz" body vm =
       some (if x = 0 then { vm with pc := Isa.field body a.r a.o } else { vm with pc := vm.pc + 1 }) := by
-  simp [Isa.exec, hx, hstd]
+  simp [Isa.exec, Isa.pipeOps, hx, hstd]
 
 theorem isa_i2r {v : Nat} (hv : vm.inputs[Isa.field body a.r a.inBits]? = some v) (hk : Isa.field body 0 a.r < vm.regs.length) :
     Isa.exec a plen "i2r" body vm = some { vm with pc := vm.pc + 1, regs := vm.regs.set (Isa.field body 0 a.r) v } := by
-  simp [Isa.exec, hv, hk]
+  simp [Isa.exec, Isa.pipeOps, hv, hk]
 
 theorem isa_r2o {v : Nat} (hv : vm.regs[Isa.field body 0 a.r]? = some v) (ho : Isa.field body a.r a.outBits < vm.outputs.length) :
     Isa.exec a plen "r2o" body vm = some { vm with pc := vm.pc + 1, outputs := vm.outputs.set (Isa.field body a.r a.outBits) v } := by
-  simp [Isa.exec, hv, ho]
+  simp [Isa.exec, Isa.pipeOps, hv, ho]
 
 theorem isa_i2rw_take {v : Nat} (hiv : vm.inValid[Isa.field body a.r a.inBits]? = some true)
     (hv : vm.inputs[Isa.field body a.r a.inBits]? = some v) (hir : vm.inRecv[Isa.field body a.r a.inBits]? = some false)
@@ -109,22 +109,22 @@ theorem isa_i2rw_take {v : Nat} (hiv : vm.inValid[Isa.field body a.r a.inBits]? 
                      inRecv := vm.inRecv.set (Isa.field body a.r a.inBits) true,
                      deferred := if Isa.field body a.r a.inBits ∈ vm.deferred then vm.deferred
                                  else vm.deferred ++ [Isa.field body a.r a.inBits] } := by
-  simp [Isa.exec, hiv, hv, hir, hk]
+  simp [Isa.exec, Isa.pipeOps, hiv, hv, hir, hk]
 
 theorem isa_i2rw_wait {v : Nat} (hiv : vm.inValid[Isa.field body a.r a.inBits]? = some true)
     (hv : vm.inputs[Isa.field body a.r a.inBits]? = some v) (hir : vm.inRecv[Isa.field body a.r a.inBits]? = some true) :
     Isa.exec a plen "i2rw" body vm = some vm := by
-  simp [Isa.exec, hiv, hv, hir]
+  simp [Isa.exec, Isa.pipeOps, hiv, hv, hir]
 
 theorem isa_i2rw_idle {v : Nat} (hiv : vm.inValid[Isa.field body a.r a.inBits]? = some false)
     (hv : vm.inputs[Isa.field body a.r a.inBits]? = some v) :
     Isa.exec a plen "i2rw" body vm = some { vm with inRecv := vm.inRecv.set (Isa.field body a.r a.inBits) false } := by
-  simp [Isa.exec, hiv, hv]
+  simp [Isa.exec, Isa.pipeOps, hiv, hv]
 
 theorem isa_r2owa_wait {v : Nat} (hv : vm.regs[Isa.field body 0 a.r]? = some v)
     (hrc : vm.outRecv[Isa.field body a.r a.outBits]? = some true) (hov : vm.outValid[Isa.field body a.r a.outBits]? = some false) :
     Isa.exec a plen "r2owa" body vm = some vm := by
-  simp [Isa.exec, hv, hrc, hov]
+  simp [Isa.exec, Isa.pipeOps, hv, hrc, hov]
 
 theorem isa_r2owa_done {v : Nat} (hv : vm.regs[Isa.field body 0 a.r]? = some v)
     (hrc : vm.outRecv[Isa.field body a.r a.outBits]? = some true) (hov : vm.outValid[Isa.field body a.r a.outBits]? = some true)
@@ -132,14 +132,14 @@ theorem isa_r2owa_done {v : Nat} (hv : vm.regs[Isa.field body 0 a.r]? = some v)
     Isa.exec a plen "r2owa" body vm =
       some { vm with outputs := vm.outputs.set (Isa.field body a.r a.outBits) v,
                      outValid := vm.outValid.set (Isa.field body a.r a.outBits) false, pc := vm.pc + 1 } := by
-  simp [Isa.exec, hv, hrc, hov, ho]
+  simp [Isa.exec, Isa.pipeOps, hv, hrc, hov, ho]
 
 theorem isa_r2owa_raise {v : Nat} (hv : vm.regs[Isa.field body 0 a.r]? = some v)
     (hrc : vm.outRecv[Isa.field body a.r a.outBits]? = some false) (ho : Isa.field body a.r a.outBits < vm.outputs.length) :
     Isa.exec a plen "r2owa" body vm =
       some { vm with outputs := vm.outputs.set (Isa.field body a.r a.outBits) v,
                      outValid := vm.outValid.set (Isa.field body a.r a.outBits) true } := by
-  simp [Isa.exec, hv, hrc, ho]
+  simp [Isa.exec, Isa.pipeOps, hv, hrc, ho]
 
 end isa
 
